@@ -42,6 +42,9 @@ def workspaces(out, tier, seed):
     rnd = random.Random(seed)
     n_gen, n_broken = (250, 250) if tier == "quick" else (3000, 3000)
     sample = main.sample(rnd, n_gen)
+    # productions a uniform sample rarely hits: a field of a record declared in a module m1 does not import (`acc.mk().f`),
+    # the library's record constructor R (used inside the library too)
+    sample += main.sample_matching(rnd, n_gen // 8, '"t":"f","tg":2011') + main.sample_matching(rnd, n_gen // 16, '"r":"qref","t":"R"')
     ws = [{"files": [["m1", text_of(c)], ["m2", LIB], ["sub/m2", SUB]], "label": "generated"} for c in sample]
     for c in main.sample(rnd, n_broken):
         r = rnd.random()
